@@ -142,7 +142,14 @@ def showPline (f t : String) (line : Str) : String :=
     | "N" => Lists.RuleTypes.networkOnly
     | "C" => Lists.RuleTypes.cosmeticOnly
     | _ => Lists.RuleTypes.all
-  let ascii := isAsciiStr line
+  -- compared in full: ASCII lines, and lines whose only non-ASCII text is the value of a `removeparam=`
+  -- option (host names and `domain=` values need IDNA, which is external)
+  let ascii := isAsciiStr line ||
+    (match Parse.splitLastDollar line with
+     | some (before, after) =>
+       isAsciiStr before && (after.splitOn ',').all (fun o =>
+         isAsciiStr o || (Parse.startsWith "removeparam=" o && !(o.drop 12).contains '|'))
+     | none => false)
   match Lists.parseLine (C := Unit) (fun _ => .ok ()) (fun _ => none) { format := fmt, ruleTypes := rt } line with
   | .ok (.network r) => if ascii then "N:" ++ showRule r else "NET"
   | .ok (.cosmetic _) => "C"
